@@ -156,13 +156,13 @@ def envelope(draw, lo, hi, narrow):
     }
 
 
-sample_name = st.binary(max_size=22).map(lambda b: b.rstrip(b"\0")).map(lambda b: b.hex())
+sample_name = st.one_of(st.binary(max_size=22), st.binary(max_size=22), vs.bytes_with_magic(22)).map(lambda b: b.rstrip(b"\0")).map(lambda b: b.hex())
 
 
 @st.composite
 def sample(draw):
     return {
-        "data": draw(st.one_of(st.binary(max_size=64), st.binary(max_size=2048))).hex(),
+        "data": draw(st.one_of(st.binary(max_size=64), st.binary(max_size=2048), vs.bytes_with_magic(64))).hex(),
         "format": draw(st.sampled_from(["int8", "int16", "float32"])),
         "channels": draw(st.sampled_from(["mono", "stereo"])),
         "rate": draw(vs.u32(extra=(44100, 48000, 8000))),
@@ -202,7 +202,7 @@ def sampler_payload(draw, depth):
             env[w] = draw(envelope(0, 0x8000, False))
     p["envelopes"] = env
     if draw(st.booleans()):
-        p["note_map"] = draw(st.one_of(st.lists(u8, min_size=119, max_size=119), u8.map(lambda v: [v] * 119)))
+        p["note_map"] = draw(st.one_of(st.lists(u8, min_size=119, max_size=119), u8.map(lambda v: [v] * 119), vs.bytes_with_magic(119).map(lambda b: list(b.ljust(119, b"\0")))))
     fields = {
         "vibrato_type": st.sampled_from(["sin", "saw", "square"]),
         "vibrato_attack": u8,
@@ -416,8 +416,8 @@ PROJECT_FIELD_STRATS = {
     "modules_current_layer": vs.u32(extra=(7,)),
     "timeline_position": vs.i32(),
     "restart_position": vs.i32(),
-    "selected_module": vs.u32(extra=(255,)),
-    "selected_generator": vs.edge_int(-1, 2**31 - 1, extra=(0, 255)),
+    "selected_module": st.one_of(vs.u32(extra=(255,)), st.integers(0, 12)),  # also small numbers: positions that exist, are empty, or lie just past the end
+    "selected_generator": st.one_of(vs.edge_int(-1, 2**31 - 1, extra=(0, 255)), st.integers(-1, 12)),
     "current_pattern": vs.u32(),
     "current_track": vs.u32(),
     "current_line": vs.u32(),
@@ -439,6 +439,14 @@ def project_spec(draw, depth=1, max_modules=6, max_patterns=3, light=False, type
         b = draw(st.integers(0, n - 1))
         links.append([draw(st.sampled_from(["c", "c", "c", "d"])), a, b])
     out = {"modules": mods, "patterns": pats, "fields": draw(st.fixed_dictionaries({}, optional=PROJECT_FIELD_STRATS)), "links": links}
+    # the version the file is written as is the user's choice too (old versions have 8-bit module columns in patterns)
+    # empty module positions attached after the last module (they vanish when the file is loaded)
+    te = draw(st.sampled_from([0, 0, 0, 1, 2]))
+    if te:
+        out["trailing_empty"] = te
+    ver = draw(st.sampled_from([None, None, None, [1, 9, 4, 2], [1, 7, 0, 0], [1, 9, 5, 0], [2, 0, 0, 0]]))
+    if ver:
+        out["sunvox_version"] = ver
     if top and nm >= 2 and draw(st.integers(0, 2)) == 0:
         # interior empty positions: blank some module sections in the saved bytes, reload, continue
         k = draw(st.integers(1, nm - 1))
@@ -642,6 +650,8 @@ def make_pattern(ps):
 
 
 def fill_project(p, spec, defer_links=False):
+    if spec.get("sunvox_version"):
+        p.sunvox_version = tuple(spec["sunvox_version"])
     for k, v in spec.get("fields", {}).items():
         if k == "based_on_version":
             v = tuple(v)
@@ -658,6 +668,8 @@ def fill_project(p, spec, defer_links=False):
             p += mod
         else:
             p += [mod]
+    for _ in range(spec.get("trailing_empty", 0)):
+        p.attach_module(None)
     for i, ps in enumerate(spec.get("patterns", [])):
         pat = make_pattern(ps)
         if pat is None or i % 2 == 0:
